@@ -15,10 +15,13 @@ vlib.import_isla()
 
 from isla.language import unparse_grammar, parse_bnf  # noqa: E402
 
-ALPHA = ["a", '"', "\\", "\n", "\t", "<", ">", " ", "\x00", "é", "$", "n", "x", "0", "B", "\r", "\x0b", "\x7f", "|", ";", "#"]
+ALPHA = ["a", '"', "\\", "\n", "\t", "<", ">", " ", "\x00", "é", "$", "n", "x", "0", "B", "\r", "\x0b", "\x7f", "|", ";", "#",
+         # beyond Latin-1: the first code point above 0xFF, a BMP character and an astral one
+         "\u0100", "\u20ac", "\U0001f600"]
 K = len(ALPHA)
 NT = int(os.environ.get("VERIF_NT", "3"))
 FIRST = int(os.environ.get("VERIF_FIRST", "-2"))
+USET = [int(x) for x in os.environ.get("VERIF_USET", "").split(",") if x]     # second terminal: these single characters only
 RE_NT = re.compile(r"(<[^<> ]*>)")
 
 
@@ -90,6 +93,20 @@ def _roundtrip(ix, jx) -> bool:
                 raise AssertionError("re-parsed grammar %r refers to an undefined symbol %s (original %r)" % (g2, e, g))
             if l1 != l2:
                 raise AssertionError("language of %s changed: %r vs %r (grammar %r, printed %r)" % (sym, sorted(l1)[:4], sorted(l2)[:4], g, text))
+        # call history: what a caller does to a returned grammar (ISLaSolver itself adds a <start> rule in place) must not
+        # change what the next parse of the same text returns
+        import copy
+        snapshot = copy.deepcopy(g2)
+        g2["<start>"] = ["<zz>"]
+        g2["<zz>"] = ["q"]
+        for alts in g2.values():
+            alts.append("zz")
+        try:
+            g3 = parse_bnf(text)
+        except BaseException as e:
+            raise AssertionError("second parse_bnf of the printed grammar %r raised %s" % (text, type(e).__name__))
+        if g3 != snapshot:
+            raise AssertionError("parse_bnf(%r) returned %r after the caller modified the previously returned grammar (first result %r)" % (text, g3, snapshot))
     if n == 0:
         raise vlib.IgnoreAttempt()
     return True
@@ -98,7 +115,8 @@ def _roundtrip(ix, jx) -> bool:
 def _all_u(ix) -> bool:
     # second terminal: every single character and a few fixed two-character strings
     n = 0
-    for jx in [[j] for j in range(K)] + [[2, 11], [1, 1], [5, 0], [2, 2]]:
+    singles = range(K) if not USET else USET
+    for jx in [[j] for j in singles] + [[2, 11], [1, 1], [5, 0], [2, 2]]:
         try:
             _roundtrip(ix, jx)
             n += 1
